@@ -245,6 +245,24 @@ def refusal(seed, lang):
     n = 0
     bad = []
     junk = ['', ' ', 'x', '1O0', 'HJJ', 'sst', 'SST', '100 X', '4x', 'x100', '110H1', 'DT1.5kgg', 'JT900', 'T', '123HR', 'H0', 'L10', '٣', '100\x00', 'DT--', '5Kk']
+    # history: a near-miss that differs from an accepted spelling only in letter case must still be refused after the accepted
+    # spelling was normalised (the answer may not depend on what was asked before)
+    for s in [rnd.choice(lang) for _ in range(3000)] + ['SPB', '110H 91.4cm', '4x100M', 'JT800g', 'MILE', '2MT']:
+        try:
+            u.normalize_event_code(s)
+        except Exception:
+            continue
+        for v in (s.upper(), s.lower(), s.swapcase()):
+            if v == s or c.PAT_EVENT_CODE.match(v.strip()):
+                continue
+            n += 1
+            try:
+                u.normalize_event_code(v)
+                bad.append((v, 'a string that is not an event code was normalised after %r had been' % s))
+            except ValueError:
+                pass
+            except Exception as e:
+                bad.append((v, 'raises %s instead of ValueError' % type(e).__name__))
     for s in junk + [rnd.choice(lang) for _ in range(4000)]:
         t = list(s)
         if s not in junk and t:
@@ -318,6 +336,8 @@ def main(tier, seed):
             run.violation('_gnorms/%s' % k, dict(call='PAT_EVENT_CODE.groupindex', observed='no group %r' % k, input=['code', 'DT1.5K']), True)
     run.add_function(instrument(u.normalize_event_code))
     run.add_function(instrument(u.check_event_code))
+    from pyvc.frames import frame_obligations
+    frame_obligations(run, [u.normalize_event_code, u.check_event_code, u._norm_tzeroes, u._norm_cm, u._norm_m, u._norm_kg, u._norm_g])
     nshapes = len(helper_shapes())
     step = max(1, nshapes // 32)
     J = [('helpers', (i, min(i + step, nshapes))) for i in range(0, nshapes, step)]
